@@ -24,3 +24,9 @@ add("C08",
     "For ~500 (quick) to ~5000 (thorough) small grammars every string up to the length bound is run through the generated parser and the Earley oracle (accept/reject, derivation validity, first-error position and expected-token set on reduced grammars, conflicts on provably ambiguous grammars, no exception from the generator); the Emboss grammar is cross-checked on sampled and mutated sentences.",
     "Trusts: my Earley implementation; bounded ambiguity search (misses are not claims); position clause applied to reduced grammars only.",
     "DESIGN.md §4 C08")
+
+add("C11",
+    "property-based testing: seeded generators (noisy renderings of random grammar derivations covering every production, corpus files and parse-preserving mutations) x indent widths, against round-trip (two-sided token equivalence, IR equality), idempotence and self-check-agreement oracles; ddmin shrinking",
+    "Generated-input search over parseable texts x indent widths 1..8 for exceptions, token/IR changes, unparseable output, non-idempotence and self-check disagreement; ~3*10^3 (quick) to ~3*10^5 (thorough) (text,width) cases.",
+    "Trusts: tokenizer/parser/module_ir.build_ir as the meaning of 'parses to the same module' (they are checked by C10/C09/C08).",
+    "DESIGN.md §4 C11")
